@@ -127,3 +127,71 @@ func VH_c02_server_sources() {
 		vReach("ended")
 	}
 }
+
+// C02 (best-path stream): a consumer registered with BgpServer.watch(WatchBestPath) - the feed of
+// the FIB, BMP and MRT writers - applies the notifications in order (a withdrawn best path removes
+// the prefix, any other replaces it). After every history of announcements, withdrawals and a
+// session loss from two sources over two prefixes, its table equals the current best-path table.
+func VH_c02_best_stream() {
+	fams := []bgp.Family{bgp.RF_IPv4_UC}
+	s := vServer(65000, fams)
+	go s.Serve()
+	src := []*peer{vEstablished(s, vNeighbor(2, 65001, 65000, fams), fams), vEstablished(s, vNeighbor(3, 65002, 65000, fams), fams)}
+	w, err := s.watch(WatchBestPath(true))
+	vAssert(err == nil && w != nil, "a best-path watcher cannot be registered")
+	fib := map[string]*table.Path{}
+	consume := func() {
+		vSettle()
+		for {
+			select {
+			case ev := <-w.Event():
+				if b, ok := ev.(*watchEventBestPath); ok {
+					for _, p := range b.PathList {
+						if p.IsWithdraw {
+							delete(fib, p.GetPrefix())
+						} else {
+							fib[p.GetPrefix()] = p
+						}
+					}
+				}
+				vSettle()
+				continue
+			default:
+			}
+			break
+		}
+	}
+	consume()
+	prefixes := []*bgp.IPAddrPrefix{vPrefix4(10, 1, 0, 0, 16), vPrefix4(10, 2, 0, 0, 16)}
+	steps := vParam("steps")
+	up := [2]bool{true, true}
+	for i := 0; i < steps; i++ {
+		k := vChoice("source", 2)
+		pf := prefixes[vChoice("prefix", 2)]
+		switch vChoice("event", 3) {
+		case 0:
+			l := 1 + vChoice("aspath_len", 2)
+			vRecv(s, src[k], vUpdate4(pf, false, []uint32{uint32(65001 + k), 65010}[:l], vAddr4(10, 0, 0, byte(2+k))), int64(10+i))
+		case 1:
+			vRecv(s, src[k], vUpdate4(pf, true, nil, vAddr4(10, 0, 0, byte(2+k))), int64(10+i))
+		default:
+			vAssume(up[k])
+			vTransition(s, src[k], bgp.BGP_FSM_IDLE, fsmReadFailed)
+			up[k] = false
+		}
+		consume()
+	}
+	best := s.globalRib.GetBestPathList(table.GLOBAL_RIB_NAME, 0, fams)
+	vAssert(len(best) == len(fib), "the table rebuilt from the best-path notifications has a different number of prefixes than the best-path table")
+	for _, b := range best {
+		f, ok := fib[b.GetPrefix()]
+		vAssert(ok, "a current best path was never notified (or was notified as withdrawn)")
+		if ok {
+			vAssert(f.GetSource() == b.GetSource() && len(f.GetAsList()) == len(b.GetAsList()), "the last notification for a prefix is not its current best path")
+			vReach("matches")
+		}
+	}
+	if len(best) == 0 {
+		vReach("empty")
+	}
+}
